@@ -16,6 +16,7 @@ STUBS = [
     "replaced by an insertion-ordered set model",
     "format() of Element/_Property objects returns a placeholder",
     "exec/eval/compile of symbolic text via crosshair.realize",
+    "_AnonymousObject.__getattr__ raises AttributeError (not KeyError) for CrossHair's private '__ch_*' probes",
 ]
 
 
@@ -167,6 +168,16 @@ def install_structural(set_shim=True):
     from statham.schema.elements.meta import ObjectMeta
 
     ObjectMeta.__hash__ = lambda cls: type.__hash__(cls)
+    from statham.schema.elements.base import _AnonymousObject
+
+    _orig_ga = _AnonymousObject.__getattr__
+
+    def _ga(self, key):
+        if key.startswith("__ch_"):
+            raise AttributeError(key)
+        return _orig_ga(self, key)
+
+    _AnonymousObject.__getattr__ = _ga
     if set_shim:
         import statham.serializers.python as sp
         import statham.schema.parser as pr
